@@ -249,6 +249,8 @@ where
             self.encoding = next_encoding;
             self.text_decoder.set_encoding(next_encoding);
             self.delegate.output_sink.set_encoding(next_encoding);
+            #[cfg(feature = "_verif_hooks")]
+            crate::verif::emit(crate::verif::Event::EncodingSwitch);
         }
     }
 
